@@ -101,10 +101,12 @@ def render_int(v, spec):
 
 
 class Opaque:
-    """A value the slice does not compute (a datetime, a period string...)."""
-    def __init__(self, name):
+    """A value the slice does not compute (a datetime, a period string...). An attribute of it (`.year`) is opaque too
+    and reports how it is formatted to its owner, as '{attr:spec}'."""
+    def __init__(self, name, owner=None, attr=None):
         self.name = name
         self.formats = []
+        self.owner, self.attr = owner, attr
 
 
 class Interp:
@@ -212,6 +214,11 @@ class Interp:
             if fname == 'str' and len(args) == 1:
                 return render_int(args[0], 'd') if isinstance(args[0], (SymInt, int)) else as_text(args[0])
             raise HarnessError(f'call {fname} not modelled in the slice')
+        if isinstance(e, ast.Attribute):
+            base = self.eval(e.value)
+            if isinstance(base, Opaque) and base.owner is None:
+                return Opaque(base.name, owner=base, attr=e.attr)
+            raise HarnessError(f'attribute {ast.unparse(e)} not modelled in the slice')
         if isinstance(e, ast.JoinedStr):
             out = Text()
             for v in e.values:
@@ -225,7 +232,10 @@ class Interp:
                         spec = ''.join(x.value for x in v.format_spec.values)
                     val = self.eval(v.value)
                     self.format_specs.append((ast.unparse(v.value), spec))
-                    if isinstance(val, Opaque):
+                    if isinstance(val, Opaque) and val.owner is not None:
+                        val.owner.formats.append('{%s:%s}' % (val.attr, spec))
+                        out = out + Text([('opaque', val.name)])
+                    elif isinstance(val, Opaque):
                         val.formats.append(spec)
                         out = out + Text([('opaque', val.name)])
                     elif isinstance(val, Text):
